@@ -3,7 +3,7 @@ import re
 from lib.facts import CallGraph, find, is_node, path_of, fns_in_type, render, last_seg, walk
 from lib.mirview import View, callee
 from lib.provenance import Prov, param_names
-from lib.synflow import SEQ_VIEWS, bind_call, inits_of, mentions, pat_idents, pattern_bodies, peel
+from lib.synflow_c02 import SEQ_VIEWS, bind_call, inits_of, mentions, pat_idents, pattern_bodies, peel
 
 TECHNIQUE = ("grammar-level chain from the MIR of the parser crate: a level is a fn holding one repetition (nom many0 / fold_many0 whose argument type names the "
              "operator parsers and operand parsers - identified by their signature - or a hand-written parse loop), in its own body or in a helper / closure it "
